@@ -8,7 +8,7 @@ use qbase::{
     error::Error,
     frame::{DatagramFrame, io::ReceiveFrame},
     net::tx::{ArcSendWakers, Signals},
-    packet::Package,
+    packet::{Package, PacketContent},
 };
 pub use writer::*;
 
@@ -72,6 +72,23 @@ impl DatagramFlow {
     pub fn on_conn_error(&self, error: &Error) {
         self.incoming.on_conn_error(error);
         self.outgoing.on_conn_error(error);
+    }
+}
+
+/// The outgoing datagram queue as a source of the packet assembler: each call loads at most one
+/// datagram, whole (see [`DatagramOutgoing::try_load_data_into`]); wrap it in `Repeat` to load as
+/// many as fit. A datagram frame without length ends the packet, so this must be the last source.
+///
+/// DATAGRAM frames are ack-eliciting and count as in flight, but they are not retransmitted.
+impl<P> Package<P> for DatagramFlow
+where
+    P: bytes::BufMut + ?Sized,
+    (DatagramFrame, Bytes): Package<P>,
+{
+    #[inline]
+    fn dump(&mut self, packet: &mut P) -> Result<PacketContent, Signals> {
+        self.try_load_data_into(packet)?;
+        Ok(PacketContent::EffectivePayload)
     }
 }
 
